@@ -63,4 +63,10 @@ META = {
         note="The expected AVP list of every struct type is written by hand in the harness (expect methods); comparison uses the abstract-tree mapping of harness/lib.",
         technique="runtime monitor: marshal/unmarshal inverse oracle and hand-built AVP list comparison over generated struct values",
     ),
+    "C07": dict(
+        text="Fault enumeration for the retry half (every outcome script up to the bound on three write paths) and exploration for the concurrent half (hundreds of runs with up to 32 writers under mid-write stalls, on two scheduler widths and under the race detector), decided by an offline exactly-once / order / integrity checker over the transport's byte log.",
+        design_ref="DESIGN.md section 4, C07",
+        note="Interleavings are the ones the Go scheduler and the transport stalls produced (fingerprints are counted in the evidence); the in-memory transport models per-call atomic writes.",
+        technique="runtime monitoring: offline checker over the transport byte log (exactly-once, per-writer order, integrity) + race detector; enumerated partial-write/temporary-error fault scripts",
+    ),
 }
